@@ -404,7 +404,22 @@ func (s *ServerSession) writeAcknowledgementIfNeeded(stream *Stream) error {
 	return s.packer.writeAcknowledgement(s.conn, seqNum)
 }
 
+// rejectIfPubOrSub 一个连接只承载一个pub或sub session。
+//
+// 已经是pub或sub的连接如果再次收到connect/publish/play：重复修改connection属性会panic；
+// session换了app或者流名之后，连接结束时上层按新的名字找group，之前那路流再也不会收到session离开的通知，流名会一直被占用
+func (s *ServerSession) rejectIfPubOrSub(cmd string) error {
+	if bt := s.sessionStat.BaseType(); bt == base.SessionBaseTypePubStr || bt == base.SessionBaseTypeSubStr {
+		Log.Errorf("[%s] read %s but session is already %s.", s.UniqueKey(), cmd, bt)
+		return nazaerrors.Wrap(base.ErrRtmpUnexpectedMsg)
+	}
+	return nil
+}
+
 func (s *ServerSession) doConnect(tid int, stream *Stream) error {
+	if err := s.rejectIfPubOrSub("connect"); err != nil {
+		return err
+	}
 	val, err := stream.msg.readObjectWithType()
 	if err != nil {
 		return err
@@ -457,6 +472,9 @@ func (s *ServerSession) doCreateStream(tid int, stream *Stream) error {
 }
 
 func (s *ServerSession) doPublish(tid int, stream *Stream) (err error) {
+	if err = s.rejectIfPubOrSub("publish"); err != nil {
+		return err
+	}
 	if err = stream.msg.readNull(); err != nil {
 		return err
 	}
@@ -498,6 +516,9 @@ func (s *ServerSession) doPublish(tid int, stream *Stream) (err error) {
 }
 
 func (s *ServerSession) doPlay(tid int, stream *Stream) (err error) {
+	if err = s.rejectIfPubOrSub("play"); err != nil {
+		return err
+	}
 	if err = stream.msg.readNull(); err != nil {
 		return err
 	}
